@@ -14,9 +14,10 @@ PW = SO + '::PowellDirectionalSolver'
 XTOL, IMAX = 2e-3, 7          # non-default line-search settings (defaults: 1e-4, 500)
 
 
-def _powell(h, nrec, stop_after_bootstrap=False):
-    D = h.int('nDim')
-    h.assume('D >= 1', D=D)
+def _powell(h, nrec, stop_after_bootstrap=False, dim=None):
+    D = h.int('nDim') if dim is None else dim
+    if dim is None:
+        h.assume('D >= 1', D=D)
     inplace = h.choice('constraints_in_place', [False, True])
     strict = h.choice('useStrictRange', [False, True])
     cons = h.fn('CONS', ret='same_nd', log='cons_calls', inplace=inplace)
@@ -90,6 +91,31 @@ def powell_gen0(h):
         h.check('C04/no-record-with-a-zero-iteration-limit', 'len(recs) == 0', **e)
     h.check('C04/callback-once-with-the-best', 'len(cbs) == 1 and seq_eq(cbs[0][0], c)', **e)
     h.check('C05/termination-condition-initialised', 'len(terms) == 1', **e)
+
+
+@contract('C08/Powell._Step/generation=0/direction-set', ['C08'], PW + '._Step', native=False)
+def powell_direc0(h):
+    """the direction set the method starts from is a FLOAT array holding the unit vectors (no `direc` given) resp. the
+    caller's directions, whatever number type they were given in: the later iterations store conjugate directions INTO
+    this array (`direc[-1] = direc1`), and an integer array would truncate them"""
+    if not h.is_sym():
+        h.unsupported('symbolic only')
+    form = h.choice('direc_given_as', ['None', 'float-lists', 'int-lists', 'int-array', 'float-array', 'mixed-lists'])
+    s, D, x0, cons, cost, maxiter = _powell(h, 0, dim=2)
+    kinds = {'None': None, 'float-lists': ('real', 'real'), 'float-array': ('real', 'real'), 'int-lists': ('int', 'int'),
+             'int-array': ('int', 'int'), 'mixed-lists': ('int', 'real')}[form]
+    if kinds is None:
+        want = [[1, 0], [0, 1]]
+    else:
+        want = [[getattr(h, kinds[r])('d%d%d' % (r, c_)) for c_ in range(2)] for r in range(2)]
+        nd = form.endswith('array')
+        h.set_field(s, '_direc', h.clist([h.clist(list(row), nd=nd) for row in want], nd=nd))
+    h.call(h.getattr(s, '_Step'))
+    d = h.field(s, '_direc')
+    e = dict(d=d, **{'w%d%d' % (r, c_): want[r][c_] for r in range(2) for c_ in range(2)})
+    h.check('direction-set-is-a-float-array', 'd.dtype == float and d[0].dtype == float and d[1].dtype == float', **e)
+    h.check('direction-set-holds-the-given-directions', 'len(d) == 2 and len(d[0]) == 2 and len(d[1]) == 2 and '
+            'd[0][0] == w00 and d[0][1] == w01 and d[1][0] == w10 and d[1][1] == w11', **e)
 
 
 # ---------------------------------------------------------------------------- a later generation, dimension 2
